@@ -213,6 +213,18 @@ def fold_depth(n, rng, variant):
     return "\n".join(lines) + PY_TAIL
 
 
+@family("fold_asym")
+def fold_asym(n, rng, variant):
+    """a three-valued variable is folded into an accumulator n times in a row (b = a + b): the number of abstract
+    values of the accumulator must not triple at every step (the asymmetric sibling of fold_depth)"""
+    lines = ["def entry(req):", "    sink(req)", "    a = 2", "    if req:", "        a = 3", "    else:", "        if req:", "            a = 5", "    b = 1"]
+    for i in range(n):
+        lines.append("    b = a + b" if variant % 2 == 0 else f"    b{i + 1} = a + b{i if i else ''}")
+    last = "b" if variant % 2 == 0 else f"b{n}"
+    lines += [f"    return {last}", ""]
+    return "\n".join(lines) + PY_TAIL
+
+
 @family("fold_double", hostile=True)
 def fold_double(n, rng, variant):
     """a 128-character string constant is concatenated with itself n times (s = s + s): the folded value doubles
